@@ -329,6 +329,9 @@ prop('C04',
      rule='random ambiguous grammars (2-4 rules incl. inlined and ?-rules, aliases, x?, empty alternatives, unit cycles) over single-character terminals with blank ignored x {basic, dynamic, dynamic_complete} x maybe_placeholders; '
           'texts sampled from the rules plus random ones. For acyclic grammars ALL derivations of the token string are enumerated by an independent brute-force oracle over lark\'s compiled rules (capped at 200), each is shaped by the '
           'Lean buildList, and the set must equal the set obtained by expanding the _ambig nodes of the explicit-ambiguity result (own expander) and by CollapseAmbiguities; accept/reject must agree. For cyclic grammars the parse must terminate. '
+          'Second stream: EBNF grammars generated as ASTs are compiled by lark and, independently, hand-desugared into plain BNF with explicit inlined helper rules; on acyclic pairs the '
+          'expanded explicit-ambiguity tree sets of the two must be equal (derivations lost or invented by EBNF compilation are invisible to the first stream, which starts from the compiled rules); '
+          'the region of finding F24 (two vanishing alternatives with different aliases) is computed from the AST and only there may the EBNF set be a proper subset. '
           'Non-trivial = more than one derivation, or a cyclic grammar; distinct by canonical hash.',
      not_proved=['soundness of the forest (every encoded tree is a derivation) and the AmbiguousExpander/AmbiguousIntermediateExpander lifting are compared against the brute-force enumeration, not proved',
                  'intra-terminal ambiguity under dynamic_complete is not generated (single-character terminals)', 'for cyclic grammars only termination is observed'],
